@@ -50,6 +50,11 @@ val add : nat -> nat -> nat
 
 val eqb : bool -> bool -> bool
 
+module Nat :
+ sig
+  val leb : nat -> nat -> bool
+ end
+
 type positive =
 | XI of positive
 | XO of positive
@@ -133,6 +138,8 @@ val fold_right : ('a2 -> 'a1 -> 'a1) -> 'a1 -> 'a2 list -> 'a1
 val existsb : ('a1 -> bool) -> 'a1 list -> bool
 
 val forallb : ('a1 -> bool) -> 'a1 list -> bool
+
+val filter : ('a1 -> bool) -> 'a1 list -> 'a1 list
 
 val seq : nat -> nat -> nat list
 
@@ -690,3 +697,49 @@ val increasing_from : n -> n list -> bool
 val chk_C09_root : block -> bool
 
 val chk_C09 : output -> bool
+
+type tree =
+| Leaf of expr_val
+| Node of tree * binop * tree
+
+val insert : tree -> binop -> expr_val -> tree
+
+val bracket : expr_val -> links -> tree
+
+type ttree =
+| TLeaf of n
+| TNode of ttree * binop * ttree
+
+val binop_eqb : binop -> binop -> bool
+
+val ttree_eqb : ttree -> ttree -> bool
+
+val ref_tree_of : nat -> tree -> ttree option
+
+val ref_of_expr : expr -> ttree option
+
+val env_lookup : n -> (n * ttree) list -> ttree option
+
+val operand_tree : eres -> (n * ttree) list -> ttree option
+
+val let_trees : instr list -> (n * ttree) list -> ttree option list
+
+val lets_of_stmt : stmt -> expr list
+
+val lets_of_if : ifstmt -> expr list
+
+val lets_of_ifbody : ifbody -> expr list
+
+val lets_of_fn : fn_decl -> expr list
+
+val match_lets : expr list -> ttree option list -> bool
+
+val chk_C07_fn : fn_decl -> block -> bool
+
+val chk_C07_fns : fn_decl list -> block list -> bool
+
+val chk_C07 : program -> output -> bool
+
+val ttree_ops : ttree -> nat
+
+val judged_C07 : program -> nat
